@@ -4,6 +4,6 @@ import "time"
 
 func init() {
 	plans["C31"] = Plan{Pkg: pkg("C31"), Steps: []Step{
-		{Run: "TestAccess", Quick: 1600, Thorough: 80000, QShards: 8, TShards: 16, QTimeout: 5 * time.Minute, TTimeout: 30 * time.Minute},
+		{Run: "TestAccess", Quick: 6400, Thorough: 120000, QShards: 8, TShards: 16, QTimeout: 5 * time.Minute, TTimeout: 30 * time.Minute},
 	}}
 }
